@@ -1,8 +1,10 @@
 /* C13 - qmail-local.c main(): the instruction loop over a symbolic .qmail body.
  *
  * main() is run from its first statement (concrete arguments, empty sender).  Cut and
- * replaced by stubs: checkhome, bouncexf (no-ops, own obligations), qmesearch (returns a
- * descriptor and a symbolic forward-only flag: contract proved by obligation qmesearch),
+ * replaced by stubs: checkhome, bouncexf (no-ops, own obligations); the real qmesearch() runs
+ * against a one-file model (.qmail-x exists, regular, execute bit symbolic - the search order
+ * itself is obligation qmesearch; running the real function here keeps this harness
+ * independent of how qmesearch hands the forward-only flag to main()),
  * slurpclose (delivers the body: B symbolic bytes, every value except NUL), mailfile,
  * maildir, mailprogram, mailforward (observing stubs whose outcome comes from a tape:
  * success, exit code 99, hard or soft failure - the outcomes obligation
@@ -33,7 +35,6 @@
 #include "c13_common.h"
 void checkhome(void);                 /* cut */
 void bouncexf(void);
-void qmesearch(int *fd, int *cutable);
 void mailfile(char *fn);
 void maildir(char *fn);
 void mailprogram(char *prog);
@@ -137,7 +138,20 @@ void *vf_calloc(size_t n, size_t sz)
   return recips_store;
 }
 
-void qmesearch(int *fd, int *cutable) { *fd = 5; *cutable = xbit != 0; }
+/* one-file model for the real qmesearch()/qmeexists(): .qmail-x exists, is regular, not writable by others, x bit symbolic */
+int vf_open(const char *path, int flags, ...)
+{
+  CHECK(c13_streq(path, ".qmail-x", 10), "address u-x: the first candidate .qmail-x exists and is the control file");
+  return 5;
+}
+int vf_fstat(int fd, struct stat *st)
+{
+  CHECK(fd == 5, "fstat of the .qmail descriptor");
+  st->st_mode = S_IFREG | 0600 | (xbit ? 0100 : 0);
+  return 0;
+}
+int vf_stat(const char *path, struct stat *st) { CHECK(0, "no stat() in this harness (empty sender: no -owner lookup)"); errno = ENOENT; return -1; }
+int vf_close(int fd) { return 0; }
 
 int slurpclose(int fd, stralloc *sa, int bufsize)
 {
